@@ -20,6 +20,7 @@ import Kust.Fix
 import Kust.Edit
 import Kust.Kustfile
 import Kust.Loc
+import Kust.Nameref
 import Kust.Gen.Lists
 import Kust.Gen.FieldSpecs
 import Kust.Gen.Lists
@@ -479,6 +480,26 @@ def runLoc (op : String) (a : Json) : Except String Json := do
     return Json.mkObj [("ok", Json.mkObj [("success", ok), ("trace", Json.arr (s.trace.map mutJ).toArray), ("fs", Json.arr final.toArray)])]
   | _ => throw s!"unknown loc op {op}"
 
+/-! ### nameref -/
+def candOfJ (j : Json) : Except String Nameref.C := do
+  let cur ← idOfJson j
+  let prev := (jArr (j.getObjValD "prev")).map fun p => match jStrs p with
+    | [k, n, ns] => (⟨{ cur.gvk with kind := k }, n, ns⟩ : Res.ResId)
+    | _ => cur
+  return { cur := cur, prev := prev, prefixes := jStrs (j.getObjValD "prefixes"), suffixes := jStrs (j.getObjValD "suffixes") }
+
+def runNameref (op : String) (a : Json) : Except String Json := do
+  let cs := csOfJson (a.getObjValD "cs")
+  match op with
+  | "select" =>
+    let ref ← candOfJ (a.getObjValD "referrer")
+    let target ← gvkOfJson (a.getObjValD "target")
+    let rr := a.getObjValD "roleRef"
+    let roleRef : Option Res.Gvk := if rr.isNull then none else some ⟨jS rr "group", "", jS rr "kind"⟩
+    let cands ← (jArr (a.getObjValD "cands")).mapM candOfJ
+    return outToJson Json.str (Nameref.newName cs ref target roleRef (jS a "oldName") cands)
+  | _ => throw s!"unknown nameref op {op}"
+
 def dispatch (comp : String) (args : Json) : Except String Json :=
   match comp.splitOn "." with
   | ["fns", op] => runFns op args
@@ -494,6 +515,7 @@ def dispatch (comp : String) (args : Json) : Except String Json :=
   | ["kio", op] => runKio op args
   | ["fix", op] => runFix op args
   | ["edit", op] => runEdit op args
+  | ["nameref", op] => runNameref op args
   | ["loc", op] => runLoc op args
   | _ => throw s!"unknown component {comp}"
 
